@@ -83,23 +83,27 @@ harnesses! { reg0;
 // ---- native floats, bit-precise (FP mode): range membership for every finite f64 / f32
 fn c13_fp_deg_f64(a: f64) {
     let n = Deg(a).normalize().0; vassert("normalize in [0, 360]", (n >= 0.0) & (n <= 360.0));
+    let o = Deg(a).opposite().0; vassert("opposite in [0, 360]", (o >= 0.0) & (o <= 360.0));
     let s = Deg(a).normalize_signed().0; vassert("normalize_signed in [-180, 180]", (s >= -180.0) & (s <= 180.0));
     vcover("end");
 }
 fn c13_fp_rad_f64(a: f64) {
     let t = Rad::<f64>::full_turn().0; let h = Rad::<f64>::turn_div_2().0;
     let n = Rad(a).normalize().0; vassert("normalize in [0, T]", (n >= 0.0) & (n <= t));
+    let o = Rad(a).opposite().0; vassert("opposite in [0, T]", (o >= 0.0) & (o <= t));
     let s = Rad(a).normalize_signed().0; vassert("normalize_signed in [-T/2, T/2]", (s >= -h) & (s <= h));
     vcover("end");
 }
 fn c13_fp_deg_f32(a: f32) {
     let n = Deg(a).normalize().0; vassert("normalize in [0, 360]", (n >= 0.0) & (n <= 360.0));
+    let o = Deg(a).opposite().0; vassert("opposite in [0, 360]", (o >= 0.0) & (o <= 360.0));
     let s = Deg(a).normalize_signed().0; vassert("normalize_signed in [-180, 180]", (s >= -180.0) & (s <= 180.0));
     vcover("end");
 }
 fn c13_fp_rad_f32(a: f32) {
     let t = Rad::<f32>::full_turn().0; let h = Rad::<f32>::turn_div_2().0;
     let n = Rad(a).normalize().0; vassert("normalize in [0, T]", (n >= 0.0) & (n <= t));
+    let o = Rad(a).opposite().0; vassert("opposite in [0, T]", (o >= 0.0) & (o <= t));
     let s = Rad(a).normalize_signed().0; vassert("normalize_signed in [-T/2, T/2]", (s >= -h) & (s <= h));
     vcover("end");
 }
